@@ -99,15 +99,16 @@ SPEC = {
         "C11_skeleton_readableSet_Iterator", "C11_skeleton_readableSet_Clone", "C11_skeleton_readableSet_ToSlice",
         "C11_skeleton_readableSet_String", "C11_skeleton_SerializableOrderedMap_Encode", "C11_skeleton_SerializableOrderedMap_Decode",
         "C11_methodset_set", "C11_methodset_readableSet", "C11_methodset_SerializableOrderedMap", "C11_methodset_OrderedMap",
-        "C11_codec_decode_into_receiver", "C11_methodset_applymutex_confined", "C11_applymutex_table", "C11_no_reentrant_applymutex", "C11_methodset_modelled",
+        "C11_codec_decode_into_receiver", "C11_alias_addall", "C11_methodset_applymutex_confined", "C11_applymutex_table", "C11_no_reentrant_applymutex", "C11_no_nested_leaf_mutex", "C11_methodset_modelled",
     ],
     "trusted_base": [
         "hand-written models Hive/Model/OMap.lean (abstract ordered map, ds.Set, SetMutations, SetArithmetic, byte format), "
         "Hive/Model/OMapPtr.lean (hash index + doubly linked chain), Hive/Model/OMapDict.lean (the dictionary's ShrinkingMap "
         "bookkeeping: deletedKeys, shouldShrink with the default options, rebuild) and Hive/Model/OMapConc.lean (lock scripts, "
         "method-level protocol, RWMutex semantics), tied to the working tree by line-by-line differential execution (harness/c11), by the "
-        "regenerated lock skeletons (Hive/Gen/C11_Skel.lean + the harness's own go/ast extraction) and by recorded concurrent "
-        "histories decided by the Lean linearizability checker",
+        "regenerated lock skeletons (Hive/Gen/C11_Skel.lean + the harness's own go/ast extraction), the regenerated method sets "
+        "(Hive/Gen/C11_Methods.lean, harness/c11/methodset: go/ast, no type checker - embedded types resolved by name through the import "
+        "table) and by recorded concurrent histories decided by the Lean linearizability checker",
         "sync.RWMutex semantics as written in lockStep (permissive for reachability, writer-preference for blocking)",
         "Go toolchain, compiled Lean driver, serix encoding of fixed-width numbers/bool/struct{}",
         "reflection reads of the unexported fields dictionary.deletedKeys / dictionary.opts (names pinned by C11_skeleton_type_*); "
@@ -121,13 +122,16 @@ SPEC = {
         "the dictionary layer: ShrinkingMap Get/Has/Set/Delete/Clear as OrderedMap uses it, deletedKeys, shouldShrink (default options "
         "ratio 10 / count 100), shrink as a real copy; nil receivers of ForEach/ForEachReverse/Clear/Size/IsEmpty/Clone; String(); "
         "ReadOnly() views held across mutations; NewReadableSet; omitted / zero / negative / repeated SetArithmetic thresholds; "
-        "s.DeleteAll(s) at pointer level (C11_alias_deleteall), other self-aliased calls by differential execution",
+        "s.DeleteAll(s) and s.AddAll(s) / s.Apply(+s) at pointer level (C11_alias_deleteall, C11_alias_addall), all self-aliased calls by differential execution",
+        "the method sets of set / readableSet / SerializableOrderedMap / OrderedMap (regenerated, with declaring type and depth) and what each declaring body does with applyMutex; "
+        "Decode into a non-empty receiver and the state a failed Decode leaves (C11_codec_decode_into_receiver)",
         "NOT modelled: nil *readableSet receivers (not constructible through the API); non-default ShrinkingMap options (OrderedMap never "
         "passes any); uint32 truncation of Size() beyond 2^32 entries is modelled but not exercised; the unlocked read of currentEntry.value in ForEach "
         "(a data race with a concurrent Set of the same key on maps with non-empty values) is outside the property",
     ],
     "manifest": {
-        "text": "Round 6: the entry-count field of the codec as a field of w bytes (C11_count_prefix_roundtrip for every w, C11_count_prefix_wraps: sharp at 256^w entries, C11_count_prefix_is_four_bytes + regenerated statements of SerializableOrderedMap.Encode/Decode), sets of 65535..65543 elements through the real codec (wbig), directed single-element-call-inside-Replace scenario (overlap). " \
+        "text": "Round 6 (owner): regenerated METHOD SETS of set / readableSet / SerializableOrderedMap / OrderedMap through the embedding chain (harness/c11/methodset: name, declaring type, depth; C11_methodset_*: a set.Delete that silently becomes the promoted OrderedMap.Delete is a broken obligation naming the method), the per-method table 'takes applyMutex R / W / not at all' computed in Lean from the regenerated skeleton of each declaring method (C11_applymutex_table), no re-entry and the unlocked helper only under the exclusive lock derived from the same facts (C11_no_reentrant_applymutex), every selectable method mapped to the lock scripts the deadlock-freedom and atomicity theorems quantify over (C11_methodset_modelled), skeletons of the whole read side and of Encode/Decode; Decode of any bytes into any receiver, success or failure (C11_codec_decode_into_receiver: fold of Set over the decoded entries, old keys stay a prefix); directed schedules 'inside' (two single-element calls inside an Apply halfway through / inside Compute's factory) and 'race' (bulk call + three single calls on one element, exactly one reporter), aliasing probes for returned diffs. " \
+                "Round 6: the entry-count field of the codec as a field of w bytes (C11_count_prefix_roundtrip for every w, C11_count_prefix_wraps: sharp at 256^w entries, C11_count_prefix_is_four_bytes + regenerated statements of SerializableOrderedMap.Encode/Decode), sets of 65535..65543 elements through the real codec (wbig), directed single-element-call-inside-Replace scenario (overlap). " \
                 "Lean 4 theorems over every operation history: the ordered map's iteration order is the first-insertion order of the live keys "
                 "(C11_omap_order, by refinement from a pointer-level model of the hash index + doubly linked chain, C11_omap_refines), "
                 "Set/Add/Delete report prior presence (C11_prior_presence), AddAll/DeleteAll/Replace/Apply/Compute return exactly the membership "
@@ -151,14 +155,14 @@ SPEC = {
                 "linearizability checker and an independent Go oracle, regenerated lock skeletons of every Set/OrderedMap/ShrinkingMap method "
                 "used and regenerated struct shapes of all anchored types (C11_skeleton_*).",
         "note": "Trusted: Lean kernel; the three hand-written models (tie = differential execution + lock skeletons + recorded histories); "
-                "RWMutex semantics as modelled; of the self-aliased calls only DeleteAll is proved at pointer level, the others are tested. Four defects of the unchanged tree were fixed "
+                "RWMutex semantics as modelled; the self-aliased calls that write while they iterate (DeleteAll, AddAll, Apply) are proved at pointer level (C11_alias_deleteall, C11_alias_addall), Replace(s) by its skeleton (argument read completely before the first write). Four defects of the unchanged tree were fixed "
                 "(DeleteAll re-entrant RLock deadlock, Replace returning all previous elements, Decode merging duplicate keys, Replace(s) emptying s).",
         "technique": "Lean 4 refinement + invariant proofs over all histories / all schedules, differential correspondence, "
                      "linearizability checking of recorded histories",
     },
     "assumptions": [
         "arguments of type ReadableSet/SetMutations behave as sets (their ForEach yields each element once); when the argument is the receiver "
-        "itself the model takes its contents at the time of the call (proved equal to the pointer-level behaviour for DeleteAll, tested for the rest)",
+        "itself the model takes its contents at the time of the call (proved equal to the pointer-level behaviour for DeleteAll and AddAll / Apply, tested for all)",
         "callbacks passed to Compute/ForEach/Filter do not call methods of the same set that take applyMutex",
         "element codecs are total on their domain and prefix-free (hypothesis of C11_codec_roundtrip; proved for the concrete codecs in C11_codec_concrete)",
     ],
